@@ -231,6 +231,20 @@ RetDupLastNext == steps < MaxSteps /\
        \/ Subscribe(c2, 1, << <<<<"a">>, 1>>, <<<<"a","b">>, 1>>, <<<<"d">>, 1>> >>)
 RetDupLastSpec == BothUp(RDNames) /\ [][RetDupLastNext]_vars
 
+(* C05, a subscriber whose incoming direction is dead (BreakOut) among live ones: retained and plain publishes of another
+   client, an in-process subscriber, a later subscription of the publisher itself (it must get the retained message),
+   the broken connection's end.  All paths; c2 does nothing after its BreakOut but end.                              *)
+HalfNames == {<<"a">>}
+HalfNext == steps < MaxSteps /\
+  \/ (last.a # "breakout" /\ (\A i \in 1..Len(hist) : hist[i].a.a # "breakout") /\ Subscribe(c2, 1, << <<<<"a">>, 1>> >>))
+  \/ ((\E s \in subs : s.who = c2) /\ (\A i \in 1..Len(hist) : hist[i].a.a # "breakout") /\ BreakOut(c2))
+  \/ \E q \in 0..1, pl \in {"x", ""} : Publish(c1, <<"a">>, q, TRUE, pl, 4, FALSE)
+  \/ Publish(c1, <<"a">>, 1, FALSE, "y", 5, FALSE)
+  \/ Subscribe(c1, 2, << <<<<"a">>, 1>> >>) \/ Unsubscribe(c1, 3, << <<"a">> >>)
+  \/ ApiSubscribe(L1, <<"a">>, 1)
+  \/ End(c2, "cut")
+HalfSpec == BothUp(HalfNames) /\ [][HalfNext]_vars
+
 (* C09 wills: connect / end sequences on client id k1 (fresh and resumed sessions, changing
    will), witness c2 subscribed to '#'                                                     *)
 WNames == {<<"w">>, <<"v">>}
